@@ -92,3 +92,4 @@ require (
 )
 
 replace github.com/oxia-db/oxia => /repo
+replace github.com/cockroachdb/pebble => ../.build/pebble-sim
